@@ -259,41 +259,15 @@ def run(ctx, rep):
     # *absolute* .dynsym index. Passing the chunk-relative index looks the reference up under an unrelated symbol's version, the lookup
     # fails and the definition is not exported (genuine defect, fixed in /repo b9f0e34).
     rep.rule("import-version-index", "in resolve_symbols every symbol index handed to raw_symbol_name (version lookup) is start_symbol_offset + the enumerate index, not the chunk-relative index")
-    R_ = "libwild::resolution::resolve_symbols"
-    rs_ = F.body(R_)
-    cls_ = F.closures_of(R_)
-    if rs_ is None or not cls_:
-        rep.lost("import-version-index", R_)
+    import chunkidx
+    r_ = chunkidx.analyse(F, P)
+    if r_ is None:
+        rep.lost("import-version-index", "libwild::resolution::resolve_symbols")
     else:
-        from mir import op_place, simplify, declared_key
-        pflow = P.flow(rs_)
-        cap = None
-        relative = None
-        for blk in rs_.blocks:
-            for st in blk["s"]:
-                if st["k"] == "assign" and st["rv"]["k"] == "agg" and st["rv"].get("ak") == "closure":
-                    for i_, o in enumerate(st["rv"]["ops"]):
-                        if op_place(o) is not None and any(x[0] == "param" and (rs_.local_name(x[1]) or "") == "start_symbol_offset" for x in pflow.origins(o)):
-                            cap = i_
-        for bi, t in pflow.calls():
-            if (callee_key(t["f"]) or "").endswith("Iterator::enumerate") and t["args"]:
-                relative = any(x[0] == "call" and (x[1] or "").endswith("Iterator::skip") for x in pflow.deep_origins(t["args"][0]))
-        n = 0
-        for c in cls_:
-            cflow = P.flow(c)
-            for bi, t in cflow.calls():
-                if "raw_symbol_name" not in ((callee_key(t["f"]) or "") + (declared_key(t["f"]) or "")):
-                    continue
-                for a in t["args"]:
-                    r = render(simplify(expr_tree(P, c, a, depth=6, expand_params=0)))
-                    if not r.startswith("SymbolIndex{"):
-                        continue
-                    n += 1
-                    ok = (cap is not None and f"Add(_1.{cap}, " in r) or (cap is not None and f", _1.{cap})" in r and "Add(" in r) or relative is False
-                    rep.ob("import-version-index", "absolute-index", ok,
-                           f"version lookup index = {r}" + ("" if ok else f" — the chunk-relative enumerate index without start_symbol_offset (capture #{cap}): symbols of a shared object beyond the first "
-                            "5000 are looked up under another symbol's version, so references to the executable's definitions are not found and not exported"), c.file, t["l"])
-        rep.ob("import-version-index", "site", n >= 1, f"{n} symbol index argument(s) of raw_symbol_name examined", rs_.file, rs_.line)
+        rep.ob("import-version-index", "site", len(r_["uses"]) >= 1, f"{len(r_['uses'])} use(s) of the enumerate index examined (capture #{r_['cap']}, {'chunk-relative' if r_['relative'] else 'absolute'} index)", "libwild/src/resolution.rs", 0)
+        for c_, line, kind, ok, detail in r_["uses"]:
+            rep.ob("import-version-index", f"absolute-index:{kind}", ok or r_["relative"] is False, detail + ("" if ok else ": symbols of a shared object beyond the first 5000 are looked up under "
+                   "another symbol's identity/version, so references to the executable's definitions are not found and not exported"), c_.file, line)
 
     # ---- entry contents: which quantity goes into which field ---------------------------------------------------------
     rep.rule("entry-fields", "define_symbol stores st_name <- offset returned by write_str, st_shndx <- the section index, st_value <- value, st_size <- size; the copy functions pass "
